@@ -145,6 +145,7 @@ static double f_direct(int n, const double *x, int *undefined, void *data_)
     unsigned i, j;
     /* DIRECT unscales its samples as (c + l/(u-l)) * (u-l), which can round
        an ulp past a bound for boxes far from the origin */
+    NLOPT_VERIF_SITE(108, n, x);
     for (i = 0; i < (unsigned) n; ++i)
         xc[i] = x[i] < data->lb[i] ? data->lb[i] : (x[i] > data->ub[i] ? data->ub[i] : x[i]);
     x = xc;
